@@ -3,6 +3,9 @@
 # round-robin spec and a permutation; split chunks concatenate to the input; rotation mod 360).
 # Tie: QUtil::parse_numrange in-process vs the extracted model AND the extracted specification;
 # qpdf CLI --pages/--collate/--split-pages/--rotate on marker documents vs the extracted specs.
+# Extension (c12_attr.py, drv_pattr.cc): page trees built in-process, push-down / flattening / rotatePage histories vs the
+# extracted model Struct/PageAttr.v and the extracted ISO 7.7.3.4 specification Struct/PageAttrSpec.v; the page-list model
+# Struct/PageSel.v vs every --pages job.
 import itertools, json, os, re
 import common, pdfgen
 from common import hexs
@@ -11,6 +14,7 @@ ASSUMPTIONS = [
     "std::regex matches (x)?(z|r?\\d+)(?:-(z|r?\\d+))? as ECMAScript defines it (the model implements that one expression by hand)",
     "AcroForm field re-parenting and resource pruning are not modelled (DESIGN C12: oracle-only / outside)",
     "output page lists are read back through qpdf --json-output (qpdf's own reader); strictness of the written file is C02's subject",
+    "page-tree model (Struct/PageAttr.v): tree objects have distinct ids, correct /Type and /Parent, indirect dictionary kids; every indirect reference is below the document's next object id; Pages::cache's other repairs are C13's model; no signed overflow in rotatePage (|old + angle| < 2^31)",
 ]
 
 BODY_ALPHA = "1230-,xzr"
@@ -270,6 +274,19 @@ def part_cli(chk, runner):
         else:
             expected.append([tuple(map(int, c.split("-"))) for c in next(qres).split(";") if c])
     cres = iter(common.run_lines(runner, clines))
+    # page-list level of handlePageSpecs (extracted Struct/PageSel.v: ps_handle): inputs are identified by file name, 0 = primary
+    plines, pidx = [], []
+    for idx, (job, exp) in enumerate(zip(jobs, expected)):
+        if job[0] != "pages":
+            continue
+        fids = {}
+        for fi, r in job[1]:
+            fids.setdefault(fi, len(fids))
+        sel_s = ";".join("%d:%s" % (fids[fi], ",".join(str(p - 1) for p in s)) for (fi, r), s in zip(job[1], exp))
+        cs = "-" if job[2] is None else ",".join(map(str, job[2] if job[2] else [1]))
+        plines.append("psel %d %s %s" % (len(files[job[1][0][0]][1]), sel_s, cs))
+        pidx.append((idx, {v: k for k, v in fids.items()}))
+    psel = dict(zip([i for i, _ in pidx], zip(common.run_lines(runner, plines), [m for _, m in pidx])))
 
     def run_job(idx):
         job = jobs[idx]
@@ -327,6 +344,17 @@ def part_cli(chk, runner):
                 fail("page attributes (MediaBox/Rotate) changed", expected=want, got=have)
             elif cnt != len(have):
                 fail("/Count disagrees with the page list", count=cnt)
+            # the extracted model of the page-list loop predicts the same sequence; no page object occupies two positions
+            mo, fmap = psel[idx]
+            mseq = [files[fmap[int(x.split(".")[0])]][1][int(x.split(".")[1])][0] for x in mo.split(",")] if mo else []
+            if mseq != [h[0] for h in have] and [w[0] for w in want] == [h[0] for h in have]:
+                chk.violation({"kind": "correspondence-broken", "correspondence": "corr:C12:pagesel", "first_case": desc,
+                               "implementation": [h[0] for h in have], "model": mo}, no_input=True)
+            root_o, objs_o = got[0][2]
+            refs = []
+            walk_pages(objs_o, root_o[b"Pages"], refs)
+            if len(set((r.n, r.g) for r in refs)) != len(refs):
+                fail("a page object occupies two positions of the output page tree")
             if len(want) > 1:
                 nontriv.add(tuple(args[1:-1]))
         elif job[0] == "split":
@@ -389,13 +417,19 @@ def run(chk):
     chk.cov["rule"] = ("numrange: every body over the alphabet '%s' up to the length bound x max in {0,3,12} x parity suffix, fixed malformed list, "
                        "grammar-derived random ranges with mutations; non-trivial = accepted range with a span, list or parity suffix, distinct by (string,max). "
                        "cli: random --pages/--collate/--split-pages/--rotate jobs over 6 marker documents (nested page trees, inherited Rotate/MediaBox); "
-                       "non-trivial = job selecting more than one page, distinct by argv") % BODY_ALPHA
+                       "non-trivial = job selecting more than one page, distinct by argv. "
+                       "pattr: random page trees built in-process (depth 1-5, chains, empty nodes, each inheritable key present/absent per level, direct/indirect/shared/"
+                       "dangling/ill-typed values, explicit /Rotate 0 under an inherited rotation, /Rotate beyond 32 bits or not a multiple of 90, wrong /Count, unknown keys) "
+                       "x histories of 1-6 operations (pushInheritedAttributesToPage, getAllPages, findPage, removePage, insert, rotatePage) + fixed cases per case split; "
+                       "non-trivial = the object graph changed, distinct by (tree, history)") % BODY_ALPHA
     part_numrange(chk, drv, runner)
     part_cli(chk, runner)
     import c12_forms
     c12_forms.part_forms(chk)
     import c12_res
     c12_res.part_res(chk)
+    import c12_attr
+    c12_attr.part_attr(chk, drv, runner)
 
 
 def replay(chk, rep):
